@@ -94,16 +94,14 @@ def stage_free(chk, stats):
     # them, each listed in known_findings.jsonl by its exact signature; a seed range that moved with VERIF_SEED could meet a rare
     # unlisted variant of the same root causes.  `new_programs=0`: `supervisorctl update` with a NEW program (root cause A of the
     # known findings) is only replayed from the corpus.
-    n = 60 if chk.tier == 'quick' else 1500
+    n = 240 if chk.tier == 'quick' else 1500
     agg = {}
-    for sd in range(n):
-        r = c16free.run_free(sd, new_programs=0)
+    for sd, r in c16free.run_many(range(n), {'new_programs': 0}):
         for sig, what in r['findings']:
             chk.reject(sig, what, {'free_seed': sd, 'stage': 'free', 'free_kwargs': {'new_programs': 0}, 'how': './check C16 --replay <this file>'})
-        for he in (r.get('harness_errors') or [])[:1]:
+        for he in r['harness_errors']:
             chk.notes.append(f'free-running stage, seed {sd}: harness error (not a finding): {str(he)[:200]}')
-        for k, v in (r.get('stats') or {}).items():
-            if isinstance(v, (int, float)): agg[k] = agg.get(k, 0) + v
+        for k, v in r['stats'].items(): agg[k] = agg.get(k, 0) + v
     stats['free'] = dict(agg, schedules=n)
 
 
